@@ -31,7 +31,7 @@ func vpC22Commits(s *BadgerStore, f func()) uint64 {
 func TestVP_C22_single_commit(t *testing.T) {
 	c := kit.New(t, "C22", "rapid: model-built ledgers (deposits, transfers, submits, claims, mints, pending and finalized) on which further admissions (Validate incl. ghost-key reservation, LockInputs over 1..4 inputs, deposit and mint locks, WriteTransaction) and finalizations (WriteSnapshot of 1..n pending batchable members, snapshots re-finalizing an already final member on another chain) are issued one store call at a time; oracle: the number of Badger commits consumed by each call (difference of DB.MaxVersion around it) is exactly 1 for a successful WriteSnapshot / WriteTransaction of a new body, at most 1 for every other call and 0 for a failed call, and a full key/value dump is unchanged by a failed call; non-trivial = WriteSnapshot with >=2 members or LockInputs with >=2 inputs; distinct by call kind + snapshot/transaction hash")
 	c.Require("WriteSnapshot", "WriteSnapshot-batch", "LockInputs-multi", "WriteTransaction", "Validate", "refinalize", "failed-call")
-	kit.SetChecks(kit.N(150, 6000))
+	kit.SetChecks(kit.N(60, 6000))
 	rapid.Check(t, func(t *rapid.T) {
 		l := vpLNewLedger(7, "c22s", 5)
 		defer l.Close()
